@@ -31,13 +31,35 @@ merge; SQL counted with before_cursor_execute):
  3. attributes not loaded on the source keep what they had (pending value,
     loaded value, else the row's value);
  4. merging the same source again returns the same object and changes
-    nothing: values, histories, Session.new / dirty unchanged, no DML;
+    nothing: values, histories, Session.new unchanged, no DML at the next flush;
  5. load=False: zero SQL, Session.dirty empty, result not flagged modified;
     a transient / pending / modified source is refused with
     InvalidRequestError and the Session left unchanged;
  6. (load=True) after flush the rows equal 2 + 3.
 
-Mutations caught: see the end of this docstring (filled when run).
+Scope notes: a source object without primary key has no identity to be found
+again, so the second-merge probe applies to sources whose every object has a
+key (after the flush of the first merge); Session.dirty is documented as
+optimistic, so "changes nothing" is read from values, histories, Session.new
+and "no DML at the next flush"; a detached child moved under another parent
+carries a stale foreign-key *column* next to the new relationship (source
+contradicts itself): DML of its second merge is not judged.  load=False with a
+transient / pending / dirty source is documented as unsupported: a refusal
+must leave the Session unchanged, an acceptance is not judged.
+
+Mutations caught (private copy, VF_REPO=/tmp/wt-orm3):
+ M1 properties.py ColumnProperty.merge: value not copied when the held target
+    has a pending change -> "P.x is 9 on the result, 5 on the source"
+ M2 session.py _merge: a transient source with a primary key never loads the
+    existing row -> "result is not the Session's persistent instance for the row"
+ M4 relationships.py merge: collection truncated to its first member ->
+    "P.cs has 1 members on the result, 2 on the source"
+ M7 session.py _merge: load=False falls through to Session.get() ->
+    "load=False emitted SQL: SELECT ..."
+ M8 relationships.py merge: load=False collection filled with events ->
+    "load=False left Session.dirty non-empty"
+ (not observable, equivalent here: load=False using impl.set / dropping the
+ final _commit_all - the other one masks it)
 """
 import gc
 import itertools
@@ -70,7 +92,7 @@ META = dict(
     "outcomes = distinct (result kind, copied attributes, error class)",
     assumptions=["Session(autoflush=False) target", "sources are not concurrently used by another thread"],
     bounds=dict(
-        quick="2 mappings x 6 target states x ~170 source graphs x load True/False",
+        quick="2 mappings x 6 target states x ~190 source graphs (parent- and child-rooted) x load True/False",
         thorough="same plus collections of two children in both orders and y in {unset, same, different}",
     ),
 )
@@ -102,6 +124,11 @@ def sources(tier):
             for y in ys:
                 for cs in child_lists:
                     out.append(dict(k=k, x=x, y=y, cs=cs))
+    # child-rooted sources (scalar many-to-one branch of the merge cascade)
+    for k in ("ct_pk", "ct_nopk"):
+        for x in (UNSET, 5):
+            for par in (UNSET, "none", "p1t", "p1d", "pnew"):
+                out.append(dict(k=k, x=x, par=par))
     for n in range(4):
         for exp in itertools.combinations(("x", "y", "cs"), n):
             for x in ("keep", 5):
@@ -138,7 +165,24 @@ def build(kind, target, spec):
             return C(id=11, name="c1", x=5)
         return C(name="cn", x=5)
 
-    if k == "d":
+    if k.startswith("ct"):
+        src = C(name="src")
+        if k == "ct_pk":
+            src.id = 11
+        if spec["x"] != UNSET:
+            src.x = spec["x"]
+        par = spec["par"]
+        if par == "none":
+            src.p = None
+        elif par == "p1t":
+            src.p = P(id=1, name="p1", x=5)
+        elif par == "pnew":
+            src.p = P(id=3, name="pnew", x=5)
+        elif par == "p1d":
+            pd = B.get(P, 1)
+            pd.x, pd.y, pd.name
+            src.p = pd
+    elif k == "d":
         src = B.get(P, 1)
         src.cs  # load the collection (and the child)
         for ch in src.cs:
@@ -199,6 +243,7 @@ DB = {
     "C": {11: dict(name="c1", x=1, y=1), 12: dict(name="c2", x=1, y=1)},
 }
 DB_CHILDREN = {1: [11]}
+DB_PARENT = {11: 1, 12: None}
 COLS = ("name", "x", "y")
 
 
@@ -214,6 +259,8 @@ def snapshot_target(A):
         rel = "cs" if cls_name(o) == "P" else None
         if rel and rel in o.__dict__:
             d[rel] = list(o.__dict__[rel])
+        if cls_name(o) == "C" and "p" in o.__dict__:
+            d["p"] = o.__dict__["p"]
         snap[id(o)] = (o, d)
     return snap
 
@@ -233,8 +280,10 @@ def graph_state(A, objs):
             h = st.attrs[a].history
             hh = tuple(tuple(id(x) if hasattr(x, "_sa_instance_state") else x for x in part) for part in h)
             vals.append((a, v, hh))
-        out.append((id(o), tuple(vals), st.modified, st.pending, st.persistent))
-    return (tuple(out), frozenset(id(x) for x in A.new), frozenset(id(x) for x in A.dirty), len(A.identity_map))
+        out.append((id(o), tuple(vals), st.pending, st.persistent))
+    # (Session.dirty is documented as optimistic - set by any attribute set
+    # operation - so the net change is read from the histories instead)
+    return (tuple(out), frozenset(id(x) for x in A.new), len(A.identity_map))
 
 
 def is_dml(sql):
@@ -244,9 +293,13 @@ def is_dml(sql):
 def source_graph(src):
     """source parent + cascaded children (loaded collection only)"""
     objs = [src]
-    for c in src.__dict__.get("cs", ()) or ():
-        if c not in objs:
-            objs.append(c)
+    par = src.__dict__.get("p")
+    if par is not None:
+        objs.append(par)
+    for o in list(objs):
+        for c in o.__dict__.get("cs", ()) or ():
+            if c not in objs:
+                objs.append(c)
     return objs
 
 
@@ -330,7 +383,28 @@ def run_case(kind, target, spec, load, rec=None):
                     want = premap[a] if a in premap else rowvals.get(a)
                     if load and getattr(m, a) != want:
                         problems.append(("untouched", "%s.%s not loaded on the source but is %r on the result, was %r" % (cn, a, getattr(m, a), want)))
-            if cn == "P":
+            if cn == "C" and cs.kind == "o2m" and depth == 0:
+                if "p" in s.__dict__:
+                    copied.append("p")
+                    if s.p is None:
+                        if m.p is not None:
+                            problems.append(("copy", "C.p is None on the source, %r on the result" % (m.p,)))
+                    elif m.p is None:
+                        problems.append(("copy", "C.p is set on the source, None on the result"))
+                    else:
+                        check(s.p, m.p, depth + 1)
+                        if m not in m.p.cs:
+                            problems.append(("copy", "merged parent's collection lacks the merged child"))
+                elif load:
+                    want = premap.get("p", DB_PARENT.get(pk) if kindr in ("held", "loaded") else None)
+                    got = m.p.id if m.p is not None else None
+                    if got != (want.id if hasattr(want, "id") else want):
+                        problems.append(("untouched", "C.p not loaded on the source but reads %r, was %r" % (got, want)))
+            if cn == "P" and depth > 0:
+                # reached through a child's many-to-one: the reverse side is
+                # not merged (documented cycle rule); it must hold the child
+                pass
+            elif cn == "P":
                 if "cs" in s.__dict__:
                     sl, ml = list(s.cs), list(m.cs)
                     if len(sl) != len(ml):
@@ -343,7 +417,9 @@ def run_case(kind, target, spec, load, rec=None):
                                 problems.append(("copy", "merged child's parent is not the merged parent"))
                             if cs.kind == "m2m" and "ps" in mc.__dict__ and m not in mc.ps:
                                 problems.append(("copy", "merged child's ps lacks the merged parent"))
-                elif load:
+                elif load and depth == 0:
+                    # (a parent reached through a child's many-to-one gains that
+                    # child through the backref: only judged for the root)
                     want = [id(x) for x in premap["cs"]] if "cs" in premap else None
                     if want is not None:
                         if [id(x) for x in m.cs] != want:
@@ -369,49 +445,70 @@ def run_case(kind, target, spec, load, rec=None):
                 problems.append(("noload", "load=False left Session.dirty non-empty"))
             if any(sa_inspect(o).modified for o in merged_objs):
                 problems.append(("noload", "load=False flagged the result as modified"))
-        # ---- second merge of the same source: nothing changes
+        if load:
+            # ---- flush: the rows equal the copied + untouched values
+            try:
+                A.flush()
+            except (sa_exc.SQLAlchemyError, AssertionError) as e:
+                problems.append(("flush", "flush after merge raised %s: %s" % (type(e).__name__, str(e).split("\n")[0][:80])))
+                return problems
+            for m in merged_objs:
+                cn = cls_name(m)
+                tab = "p" if cn == "P" else "c"
+                row = cs.w.raw_rows("select name, x, y from %s where id = %d" % (tab, m.id))
+                want = tuple(getattr(m, a) for a in COLS)
+                if not row or tuple(row[0]) != want:
+                    problems.append(("flush", "%s row %r after flush, object holds %r" % (cn, row, want)))
+            if cls_name(src) == "C" and "p" in src.__dict__ and cs.kind == "o2m":
+                row = cs.w.raw_rows("select p_id from c where id = %d" % T.id)
+                want = T.p.id if T.p is not None else None
+                if not row or row[0][0] != want:
+                    problems.append(("flush", "merged child's p_id is %r in the row, its parent is %r" % (row, want)))
+            if "cs" in src.__dict__:
+                ids = sorted(c.id for c in T.cs)
+                if cs.kind == "o2m":
+                    got = sorted(r[0] for r in cs.w.raw_rows("select id from c where p_id = %d" % T.id))
+                else:
+                    got = sorted(r[0] for r in cs.w.raw_rows("select c_id from pc where p_id = %d" % T.id))
+                if got != ids:
+                    problems.append(("flush", "children of the merged parent in the database %r, in memory %r" % (got, ids)))
+            if problems:
+                return problems
+        # ---- second merge of the same source: nothing changes.  Only a source
+        # whose every object has a primary key has an identity to be found
+        # again (a key-less transient is a new row each time, by definition).
+        if any(o.__dict__.get("id") is None for o in graph):
+            if rec is not None:
+                rec.count("second_merge_skipped_source_without_primary_key")
+                rec.outcome((kindr, tuple(sorted(set(copied))), load))
+            cs.copied = copied
+            return problems
         objs2 = list(merged_objs)
         before = graph_state(A, objs2)
         mark = log.mark()
         try:
             T2 = A.merge(src, load=load)
+            if load:
+                A.flush()
         except (sa_exc.SQLAlchemyError, AssertionError) as e:
             problems.append(("again", "second merge raised %s" % type(e).__name__))
             return problems
         if T2 is not T:
             problems.append(("again", "second merge returned another object"))
         dml = [q for q, _ in log.since(mark) if is_dml(q)]
-        if dml:
-            problems.append(("again", "second merge emitted %s" % dml[0].split()[0]))
+        # a detached child moved under another parent still carries the old
+        # foreign key *column* value next to the new relationship: the source
+        # contradicts itself, merge copies both and the flush re-synchronises
+        stale_fk = cs.kind == "o2m" and any("p_id" in c.__dict__ and c.__dict__["p_id"] != src.__dict__.get("id") for c in graph[1:])
+        if stale_fk:
+            if rec is not None:
+                rec.count("second_merge_dml_not_judged_source_fk_column_stale")
+        elif dml:
+            problems.append(("again", "second merge (+flush) emitted %s" % dml[0].split()[0]))
         after = graph_state(A, objs2)
         if after != before:
-            what = "Session.new/dirty" if after[1:] != before[1:] else "values or histories"
+            what = "Session.new / identity map" if after[1:] != before[1:] else "values or histories"
             problems.append(("again", "second merge changed %s" % what))
-        if problems or not load:
-            if rec is not None:
-                rec.outcome((kindr, tuple(sorted(set(copied))), load))
-            return problems
-        # ---- flush: the rows equal the copied + untouched values
-        try:
-            A.flush()
-        except (sa_exc.SQLAlchemyError, AssertionError) as e:
-            problems.append(("flush", "flush after merge raised %s: %s" % (type(e).__name__, str(e).split("\n")[0][:80])))
-            return problems
-        for m in merged_objs:
-            cn = cls_name(m)
-            tab = "p" if cn == "P" else "c"
-            row = cs.w.raw_rows("select name, x, y from %s where id = %d" % (tab, m.id))
-            want = tuple(getattr(m, a) for a in COLS)
-            if not row or tuple(row[0]) != want:
-                problems.append(("flush", "%s row %r after flush, object holds %r" % (cn, row, want)))
-        if "cs" in src.__dict__:
-            ids = sorted(c.id for c in T.cs)
-            if cs.kind == "o2m":
-                got = sorted(r[0] for r in cs.w.raw_rows("select id from c where p_id = %d" % T.id))
-            else:
-                got = sorted(r[0] for r in cs.w.raw_rows("select c_id from pc where p_id = %d" % T.id))
-            if got != ids:
-                problems.append(("flush", "children of the merged parent in the database %r, in memory %r" % (got, ids)))
         if rec is not None:
             rec.outcome((kindr, tuple(sorted(set(copied))), load))
         cs.copied = copied
@@ -427,6 +524,8 @@ def run_case(kind, target, spec, load, rec=None):
 
 
 def spec_text(spec):
+    if spec["k"].startswith("ct"):
+        return "transient C(%s) x=%s p=%s" % ("id=11" if spec["k"] == "ct_pk" else "", spec["x"], spec["par"])
     if spec["k"] == "d":
         return "detached p1 (expired %s%s%s)" % (spec["exp"] or "nothing", ", x=5 after detach" if spec["x"] == 5 else "", ", new child appended" if spec["cs"] != "keep" else "")
     who = {"t_pk": "transient P(id=1)", "t_nopk": "transient P()", "t_newpk": "transient P(id=3)", "p_other": "P(id=3) pending in another Session"}[spec["k"]]
@@ -443,6 +542,8 @@ def run_shard(shard, tier, rec):
     try:
         rec.state(("target", kind, target))
         for spec in sources(tier):
+            if kind == "m2m" and spec["k"].startswith("ct"):
+                continue
             rec.transition()
             rec.trace()
             problems = run_case(kind, target, spec, load, rec)
